@@ -84,6 +84,8 @@ type ItemSpec struct {
 	// ForkVersion (8 hex digits), when set: the signature is made over the object root wrapped with
 	// compute_domain(type, this fork version, genesis validators root), whatever epoch the object names.
 	ForkVersion string `json:"fork_version"`
+	// DupOf > 0: the very same object as item DupOf (1-based, earlier in the request) is submitted again.
+	DupOf int `json:"dup_of"`
 }
 
 // CaseSpec is one call.
@@ -1148,6 +1150,10 @@ func (e *env) runVapi(spec CaseSpec, ep endpoint) Case {
 	var raws []any
 	e.deferMut = spec.Prime
 	for _, it := range spec.Items {
+		if it.DupOf > 0 && it.DupOf <= len(raws) {
+			raws = append(raws, raws[it.DupOf-1])
+			continue
+		}
 		raws = append(raws, e.build(g, ep.family, it, slot))
 	}
 	e.deferMut = false
@@ -1434,10 +1440,7 @@ func (e *env) runPeer(spec CaseSpec) Case {
 	switch {
 	case len(e.gateLog) == 1 && !e.gateLog[0]:
 		c.Err = "EGate"
-	case len(e.gateLog) == 0:
-		c.Err = "EUnknown"
-		c.ErrText = "gater not consulted"
-	default:
+	default: // (a handler that does not consult the gater at all is judged on what it delivered)
 		for _, ve := range e.verLog {
 			if ve != nil {
 				c.Err = errClassPeer(ve)
@@ -1726,6 +1729,43 @@ func (e *env) genCases(perGenLeaves int) genOut {
 					c.Items = append(c.Items, genuine(v, selfIdx))
 				}
 				add(c)
+				// repeated (validator, slot) entries in one request, valid and invalid in every order
+				V := func(v int) ItemSpec { return genuine(v, selfIdx) }
+				bad := func(v int, k string) ItemSpec {
+					it := genuine(v, selfIdx)
+					if k == "field" {
+						it.Mut = tpaths[e.r.Intn(len(tpaths))]
+					} else {
+						alts[k](&it)
+					}
+
+					return it
+				}
+				dup := func(i int) ItemSpec { it := genuine(0, selfIdx); it.DupOf = i; return it }
+				for _, rp := range []struct {
+					name  string
+					items []ItemSpec
+				}{
+					{"valid_then_wrong_share", []ItemSpec{V(0), bad(0, "wrong_share")}},
+					{"valid_then_zero_sig", []ItemSpec{V(0), bad(0, "zero_sig")}},
+					{"valid_then_altered_field", []ItemSpec{V(0), bad(0, "field")}},
+					{"valid_then_other_fork", []ItemSpec{V(1), bad(1, "other_fork")}},
+					{"wrong_share_then_valid", []ItemSpec{bad(0, "wrong_share"), V(0)}},
+					{"zero_sig_then_valid", []ItemSpec{bad(2, "zero_sig"), V(2)}},
+					{"valid_then_valid_other_content", []ItemSpec{V(0), V(0)}},
+					{"duplicate", []ItemSpec{V(0), dup(1)}},
+					{"duplicate_among_others", []ItemSpec{V(0), V(1), dup(1), V(2)}},
+					{"valid_valid_then_altered_field", []ItemSpec{V(0), V(0), bad(0, "field")}},
+					{"two_validators_valid_then_wrong_share", []ItemSpec{V(0), V(1), bad(0, "wrong_share")}},
+					{"two_validators_interleaved_then_zero_sig", []ItemSpec{V(1), V(0), V(1), bad(0, "zero_sig")}},
+					{"other_validator_invalid_in_the_middle", []ItemSpec{V(0), bad(1, "wrong_share"), V(0)}},
+					{"three_validators_last_repeats_invalid", []ItemSpec{V(0), V(1), V(2), bad(2, "foreign_key")}},
+				} {
+					c := base
+					c.Class = "repeated_entry:" + rp.name
+					c.Items = rp.items
+					add(c)
+				}
 				for pos := 0; pos < outsider; pos++ {
 					for _, k := range []string{"wrong_share", "other_fork", "zero_sig"} {
 						c := base
